@@ -103,10 +103,12 @@ Definition holds (c : case) : bool :=
   end
   && (negb (schema_root (c_or c)) || has_id (c_doc c))
   && oracle_sane (many ASSERTION (c_doc c)) (schema_as (c_or c))
-  && match c_ddoc c with Some dd => oracle_sane (decrypted dd) (schema_enc (c_or c)) | None => true end.
+  && match c_ddoc c with Some dd => oracle_sane (decrypted dd) (schema_enc (c_or c)) | None => true end
+  (* Proofs.dec_count: the round trip through str(response) loses no plain assertion *)
+  && match c_ddoc c with Some dd => Nat.leb (length (many ASSERTION (c_doc c))) (length (many ASSERTION dd)) | None => true end.
 
-(* finding classes (consulted only when holds is false; 1-3 are FIXED, so a case in one of them is a
-   regression and reported as VIOLATION; 4 is open):
+(* finding classes (consulted only when holds is false; ALL are FIXED, so a case in any class is a
+   regression and reported as VIOLATION):
    3 = C02-F3 (fixed: 32211c52; lenient engines only): an un-namespaced element called Assertion / Response carries the ID
        of a signature-checked element (the Response, its Assertion children, the decrypted assertions);
    1 = C02-F1: some signature-carrying item has more than one ds:Signature child, or its first
@@ -130,7 +132,7 @@ Definition bare_clash (c : case) : bool :=
       let bare := bare_ids (c_doc c) ++ match c_ddoc c with Some dd => bare_ids dd | None => [] end in
       existsb (fun t => match attr "ID" t with Some i => mem i bare | None => false end) items).
 
-(* 4 = C02-F4 (open): every field is covered, but no ONE covered element accounts for the whole report; the Response
+(* 4 = C02-F4 (fixed: 6a3bb24f): every field is covered, but no ONE covered element accounts for the whole report; the Response
        itself carries no signature, parse_assertion's count test is satisfied (exactly one plain Assertion child OR
        exactly one EncryptedAssertion child) and more than one assertion feeds the report *)
 Definition fed (c : case) : list tree :=
@@ -166,6 +168,8 @@ Definition cls_g (g : group) : nat :=
   | None => 0
   end.
 Definition run := run_cases (forallb agrees) (forallb holds) cls_g.
+(* the behaviour before 6a3bb24f, for comparison only (VERIF_C02_MODEL=v2) *)
+Definition run_v2 := run_cases (forallb (agrees_with knobs_v2)) (forallb holds) cls_g.
 (* the behaviour before 32211c52, for comparison only (VERIF_C02_MODEL=v1) *)
 Definition run_v1 := run_cases (forallb (agrees_with knobs_v1)) (forallb holds) cls_g.
 (* the behaviour before e81db11e / 64feb908, for comparison only (VERIF_C02_MODEL=v0) *)
